@@ -132,25 +132,6 @@ Proof. vm_compute. eexists _, _. split; [reflexivity|]. split; [right; right; le
 
 (* ---- refutations (replayed on the real planner by checks/c10.py, corpus/C10/witnesses.jsonl) *)
 
-(* a fully specified OPTIONAL clause with an alias: AppendTable error instead of the rows of the pattern before it *)
-Theorem C10_spec3_alias_refuted :
-  exists q, q_cfg q = current true false /\ run_model q = Err EAppend /\ run_spec q <> [].
-Proof. exists (w_optional_spec3_alias (current true false)). vm_compute. repeat split; discriminate. Qed.
-Print Assumptions C10_spec3_alias_refuted.
-
-(* ... or, when nothing is bound yet and the triple is absent, the clause is "unresolvable" and everything is dropped *)
-Theorem C10_spec3_alias_absent_refuted :
-  exists q outs, q_cfg q = current true false /\ run_model q = Ok (outs, []) /\ run_spec q <> [].
-Proof. exists (w_optional_spec3_alias_absent (current true false)). vm_compute. eexists. repeat split; discriminate. Qed.
-Print Assumptions C10_spec3_alias_absent_refuted.
-
-(* an OPTIONAL clause processed while the table has no bindings yet (only fully specified clauses before it) is appended,
-   not left-joined: when it matches nothing the result is empty instead of one NULL row *)
-Theorem C10_optional_unbound_refuted :
-  exists q outs, q_cfg q = current true false /\ run_model q = Ok (outs, []) /\ run_spec q <> [].
-Proof. exists (w_optional_unbound (current true false)). vm_compute. eexists. repeat split; discriminate. Qed.
-Print Assumptions C10_optional_unbound_refuted.
-
 (* repaired (F9): before, an OPTIONAL clause sharing no binding and matching nothing dropped ALL rows *)
 Theorem C10_disjoint_empty_original_refuted :
   exists q, (exists outs, run_model (q (original false true)) = Ok (outs, []) /\ run_spec (q (original false true)) <> []) /\
@@ -172,3 +153,31 @@ Proof.
   - eexists _, _. split; reflexivity.
 Qed.
 Print Assumptions C10_join_null_original_refuted.
+
+(* repaired (F26): a fully specified OPTIONAL clause with an alias after bound rows: AppendTable error instead of the rows *)
+Theorem C10_spec3_alias_original_refuted :
+  exists q, (run_model (q (mkCfg true false true true true true true true false false)) = Err EAppend /\ run_spec (q (mkCfg true false true true true true true true false false)) <> []) /\
+            (exists outs row, run_model (q (current true false)) = Ok (outs, [row]) /\ run_spec (q (current true false)) = [row]).
+Proof.
+  exists w_optional_spec3_alias. vm_compute. split; [split; [reflexivity|discriminate]|]. eexists _, _. split; reflexivity.
+Qed.
+Print Assumptions C10_spec3_alias_original_refuted.
+
+(* repaired (F27): an OPTIONAL clause processed while the table has no bindings yet (only fully specified clauses before it) was
+   appended, not left-joined: when it matched nothing the result was empty instead of one NULL row; likewise a fully specified
+   OPTIONAL clause with alias whose triple is absent made the whole pattern "unresolvable" *)
+Theorem C10_optional_unbound_original_refuted :
+  exists q, (exists outs, run_model (q (mkCfg true false true true true true true true true false)) = Ok (outs, []) /\ run_spec (q (mkCfg true false true true true true true true true false)) <> []) /\
+            (exists outs row, run_model (q (current true false)) = Ok (outs, [row]) /\ run_spec (q (current true false)) = [row]).
+Proof.
+  exists w_optional_unbound. vm_compute. split; [eexists; split; [reflexivity|discriminate]|]. eexists _, _. split; reflexivity.
+Qed.
+Print Assumptions C10_optional_unbound_original_refuted.
+
+Theorem C10_spec3_alias_absent_original_refuted :
+  exists q, (exists outs, run_model (q (mkCfg true false true true true true true true true false)) = Ok (outs, []) /\ run_spec (q (mkCfg true false true true true true true true true false)) <> []) /\
+            (exists outs row, run_model (q (current true false)) = Ok (outs, [row]) /\ run_spec (q (current true false)) = [row]).
+Proof.
+  exists w_optional_spec3_alias_absent. vm_compute. split; [eexists; split; [reflexivity|discriminate]|]. eexists _, _. split; reflexivity.
+Qed.
+Print Assumptions C10_spec3_alias_absent_original_refuted.
